@@ -27,6 +27,8 @@ type Scenario struct {
 	ZeroHigher bool `json:"zeroHigher"`
 	// AutoAccept[i]: hub i runs with auto accept on (announces register=true); the user-intent model is not applied to such a hub
 	AutoAccept []bool `json:"autoAccept,omitempty"`
+	// FixedIPv4: every hub stores a fixed IPv4 address for the services it registers (ServiceDetails.SetIPv4)
+	FixedIPv4 bool `json:"fixedIPv4,omitempty"`
 	// SlowAppMs[i]: the application of hub i needs this long for a pairing-detail notification
 	SlowAppMs []int `json:"slowAppMs,omitempty"`
 }
@@ -47,6 +49,7 @@ type Run struct {
 	Ops       []OpRec
 	Herr      string
 	Overshoot time.Duration // worst scheduling delay observed by the watchdog
+	fixedIPv4 bool
 }
 
 // overshoot watchdog: measures how late a 10 ms sleep wakes up
@@ -71,7 +74,7 @@ func watchdog(stop chan struct{}, worst *time.Duration, mu *sync.Mutex) {
 
 // Execute builds the fabric and runs the ops. The caller closes r.F.
 func Execute(sc Scenario) *Run {
-	r := &Run{F: NewFabric()}
+	r := &Run{F: NewFabric(), fixedIPv4: sc.FixedIPv4}
 	f := r.F
 	for i := 0; i < sc.N; i++ {
 		if _, err := f.AddNode(fmt.Sprintf("N%d", i), nil); err != nil {
@@ -160,6 +163,9 @@ func (r *Run) apply(op HubOp) bool {
 	case "register":
 		if op.X == op.Y {
 			return false
+		}
+		if r.fixedIPv4 {
+			nx.Hub.ServiceForSKI(ny.SKI).SetIPv4("127.0.0.1")
 		}
 		nx.Hub.RegisterRemoteSKI(ySKI)
 	case "unregister":
